@@ -168,7 +168,11 @@ func editBlob(img []byte, idx int, f func(sd *cms.SD) error) ([]byte, error) {
 }
 
 // rewriteDigest makes every blob commit to the digest of the image as it is now; md also fixes the messageDigest attribute.
-func rewriteDigest(img []byte, md bool) ([]byte, error) {
+func rewriteDigest(img []byte, md bool) ([]byte, error) { return rewriteDigestHow(img, md, false) }
+
+// rewriteDigestHow with unsignedMD leaves the signed attributes (and the signature over them) as they are and states the
+// digest of the rewritten content in unauthenticated attributes instead: nothing a verifier may take into account.
+func rewriteDigestHow(img []byte, md, unsignedMD bool) ([]byte, error) {
 	h, err := pehash.Hash(img)
 	if err != nil {
 		return nil, err
@@ -185,6 +189,25 @@ func rewriteDigest(img []byte, md bool) ([]byte, error) {
 				return err
 			}
 			n.Content = append([]byte{}, h.Digest...)
+			if unsignedMD {
+				cands, ok := sd.EContentOctets()
+				if !ok {
+					return fmt.Errorf("no content")
+				}
+				d := sha256.Sum256(cands[0])
+				for _, s := range sd.Signers {
+					un := []*der.Node{cms.Attr(cms.OIDMessageDigest, der.Octets(d[:]))}
+					if sd.EType != nil {
+						un = append(un, cms.Attr(cms.OIDContentType, sd.EType.Clone()))
+					}
+					if s.UnAttrs != nil {
+						s.UnAttrs.Children = append(s.UnAttrs.Children, un...)
+						s.UnAttrs.Opaque, s.UnAttrs.Content = false, nil
+					} else {
+						s.Node.Children = append(s.Node.Children, &der.Node{Class: der.ClassContext, Constructed: true, Tag: 1, Children: un})
+					}
+				}
+			}
 			if md {
 				cands, ok := sd.EContentOctets()
 				if !ok {
@@ -206,7 +229,7 @@ func rewriteDigest(img []byte, md bool) ([]byte, error) {
 	return out, nil
 }
 
-var classes = []string{"none", "flip_covered", "flip_covered", "flip_any", "transplant", "flip+digest_rewrite", "flip+digest_rewrite", "flip+digest_rewrite+md",
+var classes = []string{"none", "flip_covered", "flip_covered", "flip_any", "transplant", "flip+digest_rewrite", "flip+digest_rewrite", "flip+digest_rewrite+md", "flip+digest_rewrite+unsigned_md",
 	"transplant+digest_rewrite", "append_behind_table", "blob_mutation", "blob_mutation", "forged_resign", "foreign_signer_splice", "valid_foreign_entry_then_transplant", "data_signature_grafted"}
 
 func genCase(t *rapid.T) Case {
@@ -286,6 +309,8 @@ func genCase(t *rapid.T) Case {
 		out, err = rewriteDigest(flip(img, true), false)
 	case "flip+digest_rewrite+md":
 		out, err = rewriteDigest(flip(img, true), true)
+	case "flip+digest_rewrite+unsigned_md":
+		out, err = rewriteDigestHow(flip(img, true), false, true)
 	case "blob_mutation":
 		es, _, terr := acode.Table(img)
 		if terr != nil || len(es) == 0 {
